@@ -71,6 +71,7 @@ class Net:
         self.after_put = None
         self.error = None
         self.keep = []          # keep packets alive so id() stays unique
+        self.per_flow = {}
 
     def sink(self, out=0, nxt=None):
         return Sink(self, out, nxt)
@@ -78,7 +79,9 @@ class Net:
     def arrive(self, target, flow, size, src="src", payload=None):
         env = self.env
         i = len(self.arrs)
-        pkt = Packet(env.now, size, i, src=src, flow_id=flow, payload=payload)
+        # packet ids are numbered per flow (as real generators do), so they say nothing about arrival order across flows
+        self.per_flow[flow] = self.per_flow.get(flow, 0) + 1
+        pkt = Packet(env.now, size, self.per_flow[flow], src=src, flow_id=flow, payload=payload)
         self.seq += 1
         a = Arr(i, self.seq, env.now, self.step, flow, size, pkt)
         self.arrs.append(a)
